@@ -32,7 +32,9 @@ OPTS = [["tp:A:P", "cg:Z:{L}="], ["NM:i:0", "cg:Z:{L}=", "zq:Z:x_y#1"], ["cg:Z:{
 def gfa_text(variant="a"):
     out = []
     for k, (n, g) in enumerate(GRAPHS[variant].items()):
-        line = f"S\t{n}\t*\tLN:i:{g['ln']}\tSN:Z:{g['sn']}\tSO:i:{g['so']}\tSR:i:{g['sr']}\tBO:i:{g['bo']}\tNO:i:{g['no']}"
+        # integers may be spelled with a sign or leading zeros (SR:i:00, BO:i:+3): every third segment is
+        sp = (lambda v: ("+%d" % v if v > 0 else "%02d" % v if v == 0 else str(v))) if k % 3 == 2 else str
+        line = f"S\t{n}\t*\tLN:i:{g['ln']}\tSN:Z:{g['sn']}\tSO:i:{g['so']}\tSR:i:{sp(g['sr'])}\tBO:i:{sp(g['bo'])}\tNO:i:{sp(g['no'])}"
         if k % 2 == 1:      # user tags in the lower-case namespace that look like the reserved ones: they are other tags
             line += "\tno:i:35\tbo:i:77\tsn:Z:other\tsr:i:0"
         out.append(line)
@@ -92,8 +94,10 @@ def run_sort_case(job):
     _rd.CASE = str(cid)
     d = workdir("sort_", cid)
     try:
-        gfa = os.path.join(d, "g.gfa")
-        write_text(gfa, gfa_text(variant))
+        # the graph is given plain or gzip-compressed
+        ggz = zlib.crc32(("ggz" + str(cid)).encode()) % 3 == 1
+        gfa = os.path.join(d, "g.gfa" + (".gz" if ggz else ""))
+        write_text(gfa, gfa_text(variant), "gz" if ggz else "plain")
         recs = rename(recs, variant)
         lines = [gaf_line(k + 1, r, pad) for k, r in enumerate(recs)]
         # a BGZF file is recognised by its content: .gz, .bgz, or no suffix at all
